@@ -110,7 +110,8 @@ def drive_layout_b(rec, ms, quick):
         for blk in blks:
             for variant in ("ref", "avx"):
                 for kind in ("extract", "contig", "strided", "save"):
-                    nrows = rng.choice([0, 1, 2, 3]) if kind in ("contig", "strided") else 1
+                    # row counts around and at the multiples of the unrolling factors an accelerated gather may use
+                    nrows = rng.choice([0, 1, 2, 3, 4, 5, 7, 8, 9, 15, 16, 17, 24, 32]) if kind in ("contig", "strided") else 1
                     sl = rng.choice([2 * m, 2 * m + 2, 2 * m + 8, 4 * m]) if kind == "strided" else 0
                     if not rec.progress("reim4 %s_%s m=%d blk=%d nrows=%d sl=%d" % (kind, variant, m, blk, nrows, sl)):
                         continue
